@@ -300,6 +300,24 @@ where
             io.output::<Sh>("ref_own", &r_ro);
             io.output::<Sh>("assign", &r_as);
         }
+        "assign" => {
+            // compound assignment with a dual right-hand side, on both representations (C07)
+            let a = io.input::<Sh>("a");
+            let b = io.input::<Sh>("b");
+            let op = parts[1];
+            let run = |a: &Sh::N, b: &Sh::N| -> Sh::N {
+                let mut acc = a.clone();
+                match op {
+                    "add" => acc += b.clone(),
+                    "sub" => acc -= b.clone(),
+                    "mul" => acc *= b.clone(),
+                    "div" => acc /= b.clone(),
+                    _ => panic!(),
+                };
+                acc
+            };
+            both!(io, [a, b], run(&a, &b));
+        }
         "negforms" => {
             let a = io.input::<Sh>("a");
             io.output::<Sh>("neg_ref", &(-&a));
@@ -422,4 +440,152 @@ pub fn run_pred<F: Fl, Sh: Shape<F>>(pres: u64) -> CaseOut {
     io.flag("is_positive", a.is_positive() == ra.is_positive());
     io.flag("is_negative", a.is_negative() == ra.is_negative());
     io.out
+}
+
+/// Direct use of the public `Derivative` container operators (all owned/borrowed forms), with
+/// every presence pattern. Shapes: r x c with static or dynamic storage.
+pub fn run_dv<F: Fl, R: nalgebra::Dim, C: nalgebra::Dim>(kind: &str, pres: u64, r: R, c: C) -> CaseOut
+where
+    nalgebra::DefaultAllocator: nalgebra::allocator::Allocator<R, C>
+        + nalgebra::allocator::Allocator<C, R>
+        + nalgebra::allocator::Allocator<C, C>
+        + nalgebra::allocator::Allocator<R, R>,
+    nalgebra::constraint::ShapeConstraint: nalgebra::constraint::SameNumberOfRows<R, R>
+        + nalgebra::constraint::SameNumberOfRows<C, C>,
+{
+    use nalgebra::OMatrix;
+    use num_dual::Derivative;
+    let mut out = CaseOut::default();
+    let mut k = 0u32;
+    let (nr, nc) = (r.value(), c.value());
+    let mut mk = |name: &str, out: &mut CaseOut, rr: usize, cc: usize| -> (bool, Vec<F>) {
+        let present = (pres >> k) & 1 == 1;
+        k += 1;
+        let mut vals = vec![];
+        let mut leaves = vec![];
+        for j in 0..cc {
+            for i in 0..rr {
+                if present {
+                    let v = F::input(&format!("{name}[{i},{j}]"));
+                    vals.push(v);
+                    leaves.push(Some(v.val()));
+                } else {
+                    leaves.push(None);
+                }
+            }
+        }
+        out.inputs.push((name.to_string(), leaves));
+        (present, vals)
+    };
+    fn put<F: Fl, R2: nalgebra::Dim, C2: nalgebra::Dim>(
+        out: &mut CaseOut,
+        name: &str,
+        d: &Derivative<F, F, R2, C2>,
+        r: R2,
+        c: C2,
+    ) where
+        nalgebra::DefaultAllocator: nalgebra::allocator::Allocator<R2, C2>,
+    {
+        let n = r.value() * c.value();
+        if *d == Derivative::none() {
+            out.outputs.push((name.to_string(), vec![None; n]));
+        } else {
+            let m = d.clone().unwrap_generic(r, c);
+            out.outputs.push((name.to_string(), m.iter().map(|e| Some(e.val())).collect()));
+        }
+    }
+    let parts: Vec<&str> = kind.split(':').collect();
+    let op = parts[1];
+    let form = parts.get(2).copied().unwrap_or("");
+    let (pa, va) = mk("a", &mut out, nr, nc);
+    let a: Derivative<F, F, R, C> = if pa {
+        Derivative::some(OMatrix::from_iterator_generic(r, c, va))
+    } else {
+        Derivative::none()
+    };
+    match op {
+        "add" | "sub" => {
+            let (pb, vb) = mk("b", &mut out, nr, nc);
+            let b: Derivative<F, F, R, C> = if pb {
+                Derivative::some(OMatrix::from_iterator_generic(r, c, vb))
+            } else {
+                Derivative::none()
+            };
+            let y = match (op, form) {
+                ("add", "own_own") => a.clone() + b.clone(),
+                ("add", "own_ref") => a.clone() + &b,
+                ("add", "ref_ref") => &a + &b,
+                ("add", "assign") => {
+                    let mut t = a.clone();
+                    t += b.clone();
+                    t
+                }
+                ("sub", "own_own") => a.clone() - b.clone(),
+                ("sub", "own_ref") => a.clone() - &b,
+                ("sub", "ref_ref") => &a - &b,
+                ("sub", "assign") => {
+                    let mut t = a.clone();
+                    t -= b.clone();
+                    t
+                }
+                _ => panic!("unknown dv form"),
+            };
+            put(&mut out, "y", &y, r, c);
+        }
+        "neg" => {
+            let y = if form == "own" { -a.clone() } else { -&a };
+            put(&mut out, "y", &y, r, c);
+        }
+        "mul_t" | "div_t" => {
+            let t = F::input("t");
+            out.scalars.push(("t".into(), t.val()));
+            let y = match (op, form) {
+                ("mul_t", "own") => a.clone() * t,
+                ("mul_t", "ref") => &a * t,
+                ("mul_t", "assign") => {
+                    let mut x = a.clone();
+                    x *= t;
+                    x
+                }
+                ("div_t", "own") => a.clone() / t,
+                ("div_t", "ref") => &a / t,
+                ("div_t", "assign") => {
+                    let mut x = a.clone();
+                    x /= t;
+                    x
+                }
+                _ => panic!("unknown dv form"),
+            };
+            put(&mut out, "y", &y, r, c);
+        }
+        "tr_mul" => {
+            // a^T (c x r) * b (r x c) -> c x c
+            let (pb, vb) = mk("b", &mut out, nr, nc);
+            let b: Derivative<F, F, R, C> = if pb {
+                Derivative::some(OMatrix::from_iterator_generic(r, c, vb))
+            } else {
+                Derivative::none()
+            };
+            let y = a.tr_mul(&b);
+            put(&mut out, "y", &y, c, c);
+        }
+        "matmul" => {
+            // a (r x c) * b (c x r) -> r x r
+            let (pb, vb) = mk("b", &mut out, nc, nr);
+            let b: Derivative<F, F, C, R> = if pb {
+                Derivative::some(OMatrix::from_iterator_generic(c, r, vb))
+            } else {
+                Derivative::none()
+            };
+            let y = &a * &b;
+            put(&mut out, "y", &y, r, r);
+        }
+        "unwrap" => {
+            let m = a.clone().unwrap_generic(r, c);
+            out.outputs
+                .push(("y".into(), m.iter().map(|e| Some(e.val())).collect()));
+        }
+        _ => panic!("unknown dv op {op}"),
+    }
+    out
 }
